@@ -231,14 +231,30 @@ pub fn run(run: &mut Run) {
         run.sample(json!({"config": cfg_json(c), "states": st.states, "transitions": st.transitions, "closed": st.closed,
             "example_history": [{"op":"store","f":0,"v":1,"atomic":true,"masked":false},{"op":"fetch","f":1,"kind":"Add","v":1}]}));
     }
+    // concurrent neighbours: every atomic accessor against an atomic update of ANOTHER field in
+    // the same metadata byte, all interleavings at the hardware atomics (engine `baton`)
+    {
+        use super::metaconc::{race_probe, run_pairs, Kind::*};
+        // (compare_exchange on a sub-byte field may fail spuriously when a neighbour changes the byte
+        // -- documented weak semantics, its callers loop -- so it is not offered here)
+        run_pairs(run, &[Store, FetchOr, FetchAnd, FetchAdd, FetchSub, FetchUpdate], &[Store, FetchOr, FetchUpdate], thorough);
+        // sampled companion (free-running threads; not part of the coverage claim)
+        race_probe(run, &[Store, FetchOr, FetchAnd, FetchAdd, FetchUpdate], 100_000);
+    }
     run.set("configurations", cfgs.len() as u64);
-    run.set("rule", "per (log_bits 0..6, log_region {3,4,8,12}, background {00,ff,a5}): BFS to closure over load/store (atomic and not)/compare_exchange (matching and not)/fetch_add/sub (amounts chosen to land on each domain value, including wrap-around)/fetch_and/or/fetch_update (accept, refuse)/set_zero on 3-6 fields (consecutive regions sharing a metadata byte, the next byte, 4096 bytes away), value domain {0,1,max,0xA5..}; after every operation return value == previous field value and the metadata bytes +-16 around all fields == shadow image; non-trivial = the operated field has non-zero bits of another field or background in the same or an adjacent byte");
+    run.set("rule", "per (log_bits 0..6, log_region {3,4,8,12}, background {00,ff,a5}): BFS to closure over load/store (atomic and not)/compare_exchange (matching and not)/fetch_add/sub (amounts chosen to land on each domain value, including wrap-around)/fetch_and/or/fetch_update (accept, refuse)/set_zero on 3-6 fields (consecutive regions sharing a metadata byte, the next byte, 4096 bytes away), value domain {0,1,max,0xA5..}; after every operation return value == previous field value and the metadata bytes +-16 around all fields == shadow image; plus, with the baton engine, all interleavings of one atomic accessor per thread on two different fields sharing a byte (both effects must be present at the end); non-trivial = the operated field has non-zero bits of another field or background in the same or an adjacent byte");
     run.assume("values passed to store/fetch ops are within the field width (asserted precondition of the accessors)");
-    run.assume("sequential histories only; concurrent access to neighbouring fields is covered by C18");
+    run.assume("histories are sequential except for the two-thread phase: one atomic accessor per thread on two different fields of one metadata byte (1/2/4-bit specs), all interleavings; more threads / longer concurrent histories are C18's");
 }
 
 pub fn replay(case: &Value, run: &mut Run) {
     init_side_metadata();
+    if case["engine"] == "baton" {
+        return super::metaconc::replay(case, run);
+    }
+    if case["engine"] == "race_probe" {
+        return super::metaconc::replay_probe(case, run);
+    }
     let c = cfg_from_json(&case["cfg"]);
     let s = MetaSubject::new(SideAccess::new(c), "side");
     let hist: Vec<_> = case["history"].as_array().unwrap().iter().map(op_from_json).collect();
